@@ -290,6 +290,13 @@ def run(ctx, prog):
             rets = [r for r in st.body if isinstance(r, ast.Return) and isinstance(r.value, ast.Call)]
             if rets and 'Writer' in norm(rets[0].value.func):
                 found = True
+                wd = prog.dotted(chk.mod, rets[0].value.func) or norm(rets[0].value.func)
+                # the assumption "the writer stores what it is given at the index it is given" was checked against one class
+                if wd.endswith('ets_writer.ETSWriter') and 'buffered' not in wd.lower():
+                    ctx.ok('C20-D5', f'{chk.key}::writer class', f'the output is written through {wd} (index-addressed write_trace_object_and_points)', chk.where(st))
+                else:
+                    ctx.undecided('C20-D5', f'{chk.key}::writer class', f'the output goes through `{wd}`, not estraces\' ETSWriter: whether that class honours `index=` and keeps each trace\'s '
+                                  f'metadata as given is library behaviour this analysis has no model of', chk.where(st))
                 ctx.check({'str', 'pathlib.Path'} <= names, 'C20-D5', f'{chk.key}::{norm(st.test)[:80]}',
                           f'the writer is constructed only for {sorted(names)}; str and pathlib.Path are both documented',
                           'str and pathlib.Path both construct the writer', chk.where(st))
